@@ -2,6 +2,7 @@
    Property theorems only: every theorem is closed by [exact] of a lemma proved in Res/HashProofs.v or
    Res/GeneratorsProofs.v.  Model: Res/Hash.v, Res/Generators.v (tied to /repo by Corr/C06.v + harness/c06.go;
    the decision tables are the generated ones of Gen/HasherTables.v). *)
+From KV Require Import Res.HashExact.
 From KV Require Import Res.Hash Res.HashProofs Res.Generators Res.GeneratorsProofs Res.GeneratorsInvariance.
 Local Open Scope string_scope.
 
@@ -148,6 +149,13 @@ Theorem C06_hash_total_refuted :
 Proof. exact build_total_refuted. Qed.
 Print Assumptions C06_hash_total_refuted.
 
+(* ... EXACTLY: the hash of a content is defined if and only if no entry is keyed << (data, or binaryData of a ConfigMap) —
+   the guard of C06_hash_total_partial is the complement of finding hash-yaml-roundtrip-merge-key and nothing more *)
+Theorem C06_hash_defined_iff :
+  forall c, (exists s, hash_content c = Ok s) <-> ~ has_merge_key c.
+Proof. exact hash_defined_iff. Qed.
+Print Assumptions C06_hash_defined_iff.
+
 (* C06_invariance: labels, annotations, namespace, name, previous ids do not enter the suffix *)
 Theorem C06_invariance :
   forall o o', g_secret o = g_secret o' -> g_data o = g_data o' -> g_bin o = g_bin o' -> g_type o = g_type o' ->
@@ -201,6 +209,20 @@ Theorem C06_fresh_name_refuted :
                g_data o <> g_data o' /\ g_name o = g_name o'.
 Proof. exact fresh_name_refuted. Qed.
 Print Assumptions C06_fresh_name_refuted.
+
+(* ... EXACTLY: two UTF-8 contents have the same encoding if and only if they agree on what [content_view] keeps: kind,
+   type (Secrets), presence of binaryData, and every entry whose key is NOT spelled ~ / null / Null / NULL / "" — the
+   collisions of the encoding are the finding hash-ignores-null-named-keys and nothing more *)
+Theorem C06_encode_collisions_exact :
+  forall c c', content_utf8 c = true -> content_utf8 c' = true ->
+    (encode_content c = encode_content c' <-> content_view c = content_view c').
+Proof. exact encode_eq_iff_view. Qed.
+Print Assumptions C06_encode_collisions_exact.
+
+Theorem C06_null_key_spellings :
+  forall k, yaml_null_key k = true <-> (k = "~" \/ k = "null" \/ k = "Null" \/ k = "NULL" \/ k = "").
+Proof. exact yaml_null_key_spellings. Qed.
+Print Assumptions C06_null_key_spellings.
 
 (* JSON string literals written by encoding/json can be read back from the front of any text *)
 Theorem C06_json_string_injective :
